@@ -60,11 +60,16 @@ CLAIMS = {
                 "are mode dependent); An.evaluate establishes it for every pull of the evaluation whatever the caller did "
                 "since the last resume, The.evaluate for its single evaluation; both restore the caller's mode.",
                 note="the mode-dependent constructors themselves (hybrid_new, predicate wrapper) are not yet under contract"),
-    'C15': dict(level=P, text="An._evaluate__ proved against I with Den(An(descriptor)) = Den(conditions of the descriptor) and "
+    'C15': dict(level='other', text="An._evaluate__ proved against I with Den(An(descriptor)) = Den(conditions of the descriptor) and "
                 "the own id re-exporting the selected binding; a quantifier used as an operand restricts the operand to its "
                 "solutions (wd_extra clause in Comparator / DomainMapping); The._evaluate_ re-exports likewise; Entity / SetOf "
                 "/ QueryObjectDescriptor._evaluate_ proved for bound and unbound selected variables.",
-                note="predicate-form constructor arguments (C13) not included; T1, T3"),
+                note="level other: a known finding is recorded (an attribute of a sub-query as the FIRST operand of or_: the "
+                     "disjunction asks it for false results and the sub-query's non-solutions come back as rows). The interface "
+                     "contract does not see it: its row clauses are stated for every WELL-DEFINED environment extending the row, "
+                     "and a row that binds a non-solution of a sub-query has no such environment, so I leaves its label "
+                     "unconstrained - a limit of the contract, found by a bounded family. predicate-form constructor arguments "
+                     "(C13) not included; T1, T3"),
     'C16': dict(level=P, text="Flatten._apply_mapping_ yields exactly one HashedValue per element of the input value in order "
                 "(a non-iterable is a singleton): soundness and completeness against MapRel; DomainMapping._evaluate__ keeps "
                 "the child's bindings in every row; QueryObjectDescriptor._evaluate_ / SetOf evaluate all selected "
@@ -268,7 +273,9 @@ ORACLES = {
             _oracle('one sub-query object used as a condition in several places of the enclosing condition, evaluated twice', 150,
                     2000, kind='subquery', shared=True),
             _oracle('the() used inside another query: correlated with an outer variable; as the selected term of an enclosing '
-                    'the / an / set_of with a further condition', 100, 1500, kind='the_nested')],
+                    'the / an / set_of with a further condition', 100, 1500, kind='the_nested'),
+            _oracle('an attribute of a sub-query as a bare condition or as a comparison operand, combined with another condition '
+                    'by and_ / or_ in either operand order', 150, 2000, kind='subquery_operand')],
     'C07': [_oracle('one-shot iterator domains: pulls per result, nothing pulled twice (cache on)', 200, 3000, kind='lazy'),
             _oracle('one-shot iterator domains (cache off)', 100, 1500, kind='lazy', caching=False),
             _oracle('one-shot iterator domains of 25 elements, no condition at all (an(entity(x)), an(x), an(set_of([x]))): the '
